@@ -2,6 +2,7 @@ package vapp
 
 import (
 	"encoding/json"
+	"math/big"
 	"strings"
 )
 
@@ -53,7 +54,16 @@ func (p *projector) domain(k string, v []byte) bool {
 		d.Benef = p.nameOf0lt(r.Beneficiary)
 	}
 	if len(r.SalePrice) > 0 && string(r.SalePrice) != "null" {
-		d.Price = p.num(k+".salePrice", r.SalePrice)
+		// an asking price is not an amount anybody holds: any magnitude is legitimate, it is clamped without being flagged
+		if b, ok := new(big.Int).SetString(strings.Trim(string(r.SalePrice), "\""), 10); ok {
+			if b.IsInt64() && b.Int64() < Lim && b.Sign() >= 0 {
+				d.Price = b.Int64()
+			} else if b.Sign() >= 0 {
+				d.Price = Lim - 1
+			} else {
+				d.Price = p.num(k+".salePrice", r.SalePrice)
+			}
+		}
 	}
 	p.s.Domains[name] = d
 	return true
